@@ -132,7 +132,7 @@ func TestC03_UpdateDueWhileQueueStuck(t *testing.T) {
 				ev.InfraSkip(rt, c03, "filler send: %v", st)
 			}
 		}
-		px.PauseDir(1, 20*time.Second)
+		px.PauseDir(1, 120*time.Second) // until resumed below
 		// the fillers run into the stalled direction: kernel buffers, then the write queue fill up; wait until
 		// no filler has got a frame in for 30 ms
 		stuck := false
